@@ -463,12 +463,18 @@ class Printer:
             for fn, ft in t['fields']:
                 self.emit(1, fn + ' as ' + type_decl(ft))
             self.emit(0, 'end type')
-        self.stmts(prog['main'], 0)
+        # procedures normally follow the module-level code; with 'procs_at'
+        # they are written between two module-level statements
+        at = prog.get('procs_at')
+        if at is None or not prog.get('procs'):
+            at = len(prog['main'])
+        self.stmts(prog['main'][:at], 0)
         for p in prog.get('procs', []):
             self.emit(0, self.proc_head(p) + (' static' if p.get('static') else ''),
                       p.get('id'))
             self.stmts(p['body'], 1)
             self.emit(0, 'end ' + p['kind'])
+        self.stmts(prog['main'][at:], 0)
         text = '\n'.join(self.lines)
         if self.final_newline:
             text += '\n'
